@@ -1,1 +1,10 @@
 import BU.Properties.C09
+#print axioms C09.wif_prefixes
+#print axioms C09.wif_roundtrip
+#print axioms C09.wif_standard_form
+#print axioms C09.wif_rejects
+#print axioms C09.explicit_secret
+#print axioms C09.pub_is_dG
+#print axioms C09.sec_standard_form
+#print axioms C09.sec_roundtrip
+#print axioms C09.offcurve_rejected
